@@ -123,6 +123,14 @@ func (d *DNSFilter) filterSetProperties(
 		}
 	}(flt.URL, flt.Name, flt.Enabled, flt.LastUpdated, flt.RulesCount)
 
+	// Restore the checksum as well, since the file of the list stays as it
+	// was, and the next refresh must not take unchanged contents for new ones.
+	defer func(oldChecksum uint32) {
+		if err != nil {
+			flt.checksum = oldChecksum
+		}
+	}(flt.checksum)
+
 	flt.Name = newList.Name
 
 	if flt.URL != newList.URL {
